@@ -287,6 +287,11 @@ def run(tier):
     d1(prog, rep, tier)
     d2(prog, rep)
     d3_d4(prog, rep)
+    # the BIGNUMs of one computation live and die inside it: acquisitions tested, released on every failure path, and no released
+    # pointer survives in static storage for the next call to compute with (allocation discipline shared with C14)
+    from . import c14
+    c14.leak_rules(prog, rep, only_files=(UNIT,))
+    c14.reported_rule(prog, rep, only_files=(UNIT,))
     rep.require_min("D1-modulus", 2)
     rep.require_min("D2-forms", 12)
     return rep
